@@ -4,8 +4,11 @@ import (
 	"context"
 	"encoding/json"
 	"fmt"
+	"sort"
 	"testing"
 	"time"
+
+	"github.com/sourcenetwork/defradb/client"
 
 	"pgregory.net/rapid"
 
@@ -64,8 +67,149 @@ func runSub(c Case) (*hx.Failure, int) {
 		}
 		return nil
 	}
-	fail = s.runSteps()
+	// Steps are executed here (not by runSteps) so that runs of consecutive updates can be put into
+	// ONE explicit transaction: their notifications are published together at commit, so every result
+	// but the last is evaluated when later commits already exist - it must still show the state of
+	// its own commit.
+	for i := 0; i < len(c.Steps); i++ {
+		s.step = i
+		st := c.Steps[i]
+		if st.Kind == "update" && st.Node%2 == 1 && i+1 < len(c.Steps) && c.Steps[i+1].Kind == "update" {
+			j := i + 1
+			for j+1 < len(c.Steps) && c.Steps[j+1].Kind == "update" && j-i < 2 {
+				j++
+			}
+			if f := subTxn(s, n, c.Steps[i:j+1], res, &compared); f != nil {
+				return f, compared
+			}
+			i = j
+			continue
+		}
+		if st.Kind == "deliver" || st.Kind == "ttread" {
+			continue
+		}
+		if f := s.exec(st); f != nil {
+			return f, compared
+		}
+	}
 	return fail, compared
+}
+
+// subTxn runs several updates of one document inside one explicit transaction and compares each
+// subscription result with the model state at its own commit.
+func subTxn(s *sim, n *hx.Node, steps []Step, res *client.RequestResult, compared *int) *hx.Failure {
+	doc, ok := s.resolveDoc(steps[0].Doc)
+	if !ok || !s.m.knows(0, doc) {
+		return nil
+	}
+	txn, err := n.DB.NewTxn(n.Ctx, false)
+	if err != nil {
+		hx.Harnessf("NewTxn: %v", err)
+	}
+	var applied []Step
+	for _, st := range steps {
+		if len(st.Ops) == 0 {
+			continue
+		}
+		q := fmt.Sprintf(`mutation { update_Users(docID: %q, input: %s) { _docID } }`, doc, gqlInput(st.Ops))
+		r := hx.ExecOn(n.Ctx, txn, q)
+		s.logf("txn: %s -> err=%q", q, r.Err())
+		if !r.OK() {
+			txn.Discard(n.Ctx)
+			hx.Harnessf("update inside an explicit transaction failed: %s %s", r.Err(), r.Panic)
+		}
+		applied = append(applied, st)
+	}
+	if err := txn.Commit(n.Ctx); err != nil {
+		hx.Harnessf("commit of a single uncontended transaction failed: %v", err)
+	}
+	msgs := s.cl.Collect(0)
+	docMsgs := []hx.Msg{}
+	for _, m := range msgs {
+		if m.DocID != "" {
+			docMsgs = append(docMsgs, m)
+		}
+	}
+	if len(docMsgs) > len(applied) {
+		return hx.Failf("C20/event/more-events-than-mutations", "transaction with %d updates produced %d document events\n%s", len(applied), len(docMsgs), s.history())
+	}
+	// updates whose values did not change anything produce no commit: pair events with the model by
+	// recording them in order against the last len(docMsgs) applied steps is not sound, so only the
+	// unambiguous case is compared
+	if len(docMsgs) != len(applied) {
+		hx.Harnessf("transaction with %d updates produced %d document events; the model cannot pair them", len(applied), len(docMsgs))
+	}
+	cids := []string{}
+	for k, m := range docMsgs {
+		if f := s.record(0, "update", doc, applied[k].Ops, []hx.Msg{m}); f != nil {
+			return f
+		}
+		cids = append(cids, m.Cid)
+	}
+	s.logf("txn committed with %d commits", len(cids))
+	for _, cid := range cids {
+		e := s.m.expectAt(cid)
+		select {
+		case got, ok := <-res.Subscription:
+			if !ok {
+				return hx.Failf("C03/subscription/closed", "subscription channel closed\n%s", s.history())
+			}
+			if len(got.Errors) > 0 {
+				return hx.Failf("C03/subscription/error", "subscription result carries errors %v\n%s", got.Errors, s.history())
+			}
+			m, _ := hx.Normalize(got.Data).(map[string]any)
+			rows, _ := m["Users"].([]any)
+			if len(rows) != 1 {
+				return hx.Failf("C03/subscription/rows", "subscription result has %d rows: %s\n%s", len(rows), hx.Canon(got.Data), s.history())
+			}
+			row, _ := rows[0].(map[string]any)
+			for _, f := range counterFields {
+				gotv, okn := num(row[f])
+				if row[f] == nil {
+					gotv, okn = 0, true
+				}
+				if !okn || gotv != e.counters[f] {
+					return hx.Failf("C03/subscription/not-the-state-of-its-commit/counter", "result for commit %s (one of %d commits of one transaction) reports %s = %v, the sum of increments up to that commit is %v\n%s", short(cid), len(cids), f, row[f], e.counters[f], s.history())
+				}
+			}
+			for _, f := range registerFields {
+				if !e.admiss[f][hx.CanonValue(row[f])] {
+					return hx.Failf("C03/subscription/not-the-state-of-its-commit/register", "result for commit %s (one of %d commits of one transaction) reports %s = %s, the value at that commit is %v\n%s", short(cid), len(cids), f, hx.CanonValue(row[f]), keysOf(e.admiss[f]), s.history())
+				}
+			}
+			*compared++
+		case <-time.After(20 * time.Second):
+			hx.Harnessf("no subscription result within 20s after a committed transaction")
+		}
+	}
+	return nil
+}
+
+func keysOf(m map[string]bool) []string {
+	out := []string{}
+	for k := range m {
+		out = append(out, k)
+	}
+	sort.Strings(out)
+	return out
+}
+
+func mergeOps(steps []Step) []FieldOp {
+	out := []FieldOp{}
+	for _, st := range steps {
+		out = append(out, st.Ops...)
+	}
+	return out
+}
+
+func drain(res *client.RequestResult, n int) {
+	for i := 0; i < n; i++ {
+		select {
+		case <-res.Subscription:
+		case <-time.After(20 * time.Second):
+			hx.Harnessf("no subscription result within 20s")
+		}
+	}
 }
 
 func TestC03Sub(t *testing.T) {
